@@ -10,6 +10,7 @@ import (
 	"verif/cli"
 	"verif/gen"
 	"verif/probe"
+	"verif/ref"
 	"verif/work"
 )
 
@@ -60,7 +61,7 @@ func c15Alphabet() []probe.Op {
 
 func checkC15(c *Ctx) error {
 	maxLen := c.Pick(3, 5)
-	c.Rule = fmt.Sprintf("(1) histories: every sequence of length <=%d over {GetParam p0/p1, Get s0/s1, OverrideParam p0/p1, OverrideService s0/s1} on eight small configurations (the real service overriding a todo service carries a tag) (param->param->service->service chains with todo parameters/services at each position, tags, a decorator, explicit scopes), plus seeded longer histories; each history runs on a fresh generated container and is compared with the reference container; results that touch a cache entry filled before an override are recorded but not judged (the statement only speaks about dependants not yet constructed); function invocation counters are read right after construction (laziness) and at the end; (2) every subset of definitions marked todo is run through the real binary and must be accepted. distinct = distinct (configuration, history); non-trivial = history contains >=1 override or touches a todo definition", maxLen)
+	c.Rule = fmt.Sprintf("(1) histories: every sequence of length <=%d over {GetParam p0/p1, Get s0/s1, OverrideParam p0/p1, OverrideService s0/s1} on eight small configurations (the real service overriding a todo service carries a tag) (param->param->service->service chains with todo parameters/services at each position, tags, a decorator, explicit scopes), plus seeded longer histories; each history runs on a fresh generated container and is compared with the reference container; results that touch a cache entry filled before an override are recorded but not judged (the statement only speaks about dependants not yet constructed); function invocation counters are read right after construction (laziness) and at the end; (2) every subset of definitions marked todo is run through the real binary and must be accepted; (3) seeded configurations in which 1-3 services are switched off with `todo: true` while keeping a definition full of dangling, self- and neighbour references must be accepted. distinct = distinct (configuration, history); non-trivial = history contains >=1 override or touches a todo definition", maxLen)
 	c.Assumptions = []string{"reference container engine/ref with caches", "OverrideParam/OverrideService definitions are built by the probe from fixture constructors"}
 	lab, err := probe.NewLab(c.W)
 	if err != nil {
@@ -224,6 +225,58 @@ func checkC15(c *Ctx) error {
 		c.Eval("todo-subset:"+yaml, mask != 0)
 		if run.Res.Exit != 0 {
 			c.Violate("todo-subset-rejected", fmt.Sprintf("todo subset %04b rejected:\n%s", mask, run.Res.Stdout), map[string]string{"input/in.yaml": yaml})
+		}
+	})
+	// ---- (3) a todo service that still carries a definition: whatever that definition refers to (undeclared parameters and
+	// services, itself, a cycle through a neighbour, a contextual service while it is declared shared) is ignored; seeded
+	// configurations of the behaviour generator get 1-3 services switched off this way and must still be accepted
+	nt := c.Pick(60, 1500)
+	Par(nt, 16, func(i int) {
+		r := rand.New(rand.NewSource(c.Seed*977 + int64(i)))
+		o := gen.DefaultOpts()
+		o.Scopes = i%2 == 0
+		conf := gen.Behaviour(r, o)
+		leftovers := [][]cfg.Val{
+			{cfg.Str("%never.declared%"), cfg.Str("@nowhere")},
+			{cfg.Str("x%nope1%-%nope2%"), cfg.Str("!tagged nobody-carries-this")},
+			{cfg.Str("@SELF")},
+			{cfg.Str("@NEIGHBOUR")},
+			{cfg.Str("%unclosed"), cfg.Str("%unknownFn()%")},
+		}
+		k := 1 + r.Intn(3)
+		for j := 0; j < k && len(conf.Services) > 0; j++ {
+			si := r.Intn(len(conf.Services))
+			sv := &conf.Services[si]
+			// only services nobody needs at build time with their tags/scope: dependants keep referring to the name
+			args := append([]cfg.Val{}, leftovers[r.Intn(len(leftovers))]...)
+			for a := range args {
+				if args[a].S == "@SELF" {
+					args[a] = cfg.Str("@" + sv.Name)
+				}
+				if args[a].S == "@NEIGHBOUR" {
+					args[a] = cfg.Str("@" + conf.Services[(si+1)%len(conf.Services)].Name)
+				}
+			}
+			scope := sv.Scope
+			*sv = cfg.Service{Name: sv.Name, Todo: cfg.P(true), Constructor: cfg.P(`"fixt/pa".New`), Args: args, Scope: scope,
+				Calls: []cfg.Call{{Method: "Set", Args: []cfg.Val{cfg.Str("%also.missing%")}}}, Fields: []cfg.KV{{K: "F1", V: cfg.Str("@missing.too")}}}
+		}
+		// switching a service off may remove the reason for a scope conflict, never add one; cycles and conflicts that remain
+		// among the other services are repaired by the generator before, so the configuration has to be accepted - unless a
+		// declared-shared service now reaches a contextual placeholder (the placeholder keeps its declared scope)
+		if len(ref.ScopeErrors(conf, ref.BuildGraph(conf))) > 0 {
+			c.Add("todo_full_definition_cases_skipped(scope conflict by construction)", 1)
+			return
+		}
+		dir := w.TempDir("c15f")
+		yaml := conf.YAML()
+		_ = work.WriteFile(filepath.Join(dir, "in.yaml"), []byte(yaml))
+		out := filepath.Join(dir, "out.go")
+		run := cli.Do(w, "", nil, dir, out, "build", "-i", "in.yaml", "-o", out)
+		c.Eval("todo-full:"+yaml, true)
+		c.Add("todo_services_with_leftover_definitions", 1)
+		if run.Res.Exit != 0 {
+			c.Violate("todo-service-definition-checked:"+sigWords(rejectReason2(run)), fmt.Sprintf("a configuration whose todo services still carry definitions (with dangling references, self references) is rejected:\n%s", run.Res.Stdout), map[string]string{"input/in.yaml": yaml})
 		}
 	})
 	return nil
